@@ -313,6 +313,34 @@ func Gen(seed uint64, prop, tier string) *Spec {
 		seen[p.In+p.Name] = true
 		d.Params = append(d.Params, p)
 	}
+	// path-item level parameters: some overridden by an operation parameter of the same
+	// location and name (then only the operation's default counts), some only inherited
+	if r.Chance(1, 3) {
+		for _, p := range d.Params {
+			if p.Default != nil && p.Type != "array" && r.Bool() {
+				pp := ParamDecl{Name: p.Name, In: p.In, Type: p.Type}
+				switch p.Type {
+				case "integer":
+					pp.Default = float64(77)
+				case "boolean":
+					pp.Default = true
+				default:
+					pp.Default = "desc"
+					if len(p.Enum) == 0 {
+						pp.Default = "pathlevel"
+					}
+					pp.Enum = p.Enum
+				}
+				d.PathParams = append(d.PathParams, pp)
+			}
+		}
+		if r.Bool() {
+			d.PathParams = append(d.PathParams, ParamDecl{Name: "X-Org", In: "header", Type: "string", Default: "org"})
+		}
+		if r.Bool() {
+			d.PathParams = append(d.PathParams, ParamDecl{Name: "depth", In: "query", Type: "integer", Default: float64(2)})
+		}
+	}
 	// body
 	d.BodyKind = simfw.Pick(r, []string{"json", "json", "json", "json", "form", "multipart", "text", ""})
 	d.BodyReq = r.Bool()
@@ -322,6 +350,10 @@ func Gen(seed uint64, prop, tier string) *Spec {
 		d.Body, bodyVal, _ = bodySchema(r, rq, true)
 	case "form", "multipart":
 		d.Body = &Node{Type: "object", Required: []string{"name"}, Props: map[string]*Node{"name": {Type: "string"}, "count": {Type: "integer"}}}
+		if r.Chance(1, 3) {
+			// a defaulted property in a non-JSON body (the request below never carries it)
+			d.Body.Props["mode"] = &Node{Type: "string", Default: "std"}
+		}
 	}
 	// validations
 	nv := 1
